@@ -34,12 +34,20 @@ def resolve (s : List Char) : List Char :=
   else if p.2 = ymlExt then p.1 ++ yamlExt
   else s
 
-/-- what `dagStoreImpl.find` / `client.Rename`'s `Find` do with a spelling: a spelling WITH an extension is
-    looked up literally, one without is tried with `.yaml` (then `.yml`). `findsOwnFile s` = the literal lookup
-    of the spelling hits the file the store writes for it. -/
-def findsOwnFile (s : List Char) : Bool :=
-  let p := splitExt s
-  p.2 = [] || s = resolve s
+/-- `dagStoreImpl.find` (behind `Find`, which `client.Rename` calls for both names), AFTER fix F50 (8b26466): the
+    files it probes, in order, for a spelling — without an extension `.yaml` then `.yml`; with an extension the
+    spelling literally, then (if different) the file the other store operations use for it (`AddYamlExtension`) -/
+def findCandidates (s : List Char) : List (List Char) :=
+  if (splitExt s).2 = [] then [s ++ yamlExt, s ++ ymlExt]
+  else if resolve s = s then [s] else [s, resolve s]
+
+/-- the same BEFORE F50 (up to bdc6981): a spelling with an extension was probed literally only — regression witness -/
+def findCandidatesPre (s : List Char) : List (List Char) :=
+  if (splitExt s).2 = [] then [s ++ yamlExt, s ++ ymlExt] else [s]
+
+/-- `find` can reach the file the store reads / writes for the spelling -/
+def findsOwnFile (s : List Char) : Bool := (findCandidates s).contains (resolve s)
+def findsOwnFilePre (s : List Char) : Bool := (findCandidatesPre s).contains (resolve s)
 
 /-- position of the first occurrence (length if none) -/
 def firstIdx (x : List Char) : List (List Char) → Nat
